@@ -484,6 +484,19 @@ theorem C17_skeleton_stack :
     skel_Stack_SignalShutdown = ["lock b.mutex", "defer unlock b.mutex", "call b.elementAdded.Broadcast"] := by
   decide
 
+open Hive.Gen.C17Skel in
+/-- Type facts.  The models use unbounded integers (`Int`/`Nat`) for `Counter.value`, the Stack length and the
+StarvingMutex counters; the code's fields are Go `int`s: the tie covers values over the whole `int` range
+(`Set` to `MaxInt`/`MinInt`/`MinInt+2`/`MaxInt−1` from values of the opposite sign) but no arithmetic that leaves
+it (`Update` over the end of the range wraps in the code and is not modelled).  Both condition variables of a type
+hang on the one lock the models assume. -/
+theorem C17_skeleton_types :
+    skel_type_Counter = ["struct", "value int", "valueMutex sync.RWMutex", "valueIncreasedCond *sync.Cond", "valueDecreasedCond *sync.Cond", "subscribers *orderedmap.OrderedMap[uint64,func(oldValue,newValueint)]", "subscribersCounter uint64", "subscribersMutex sync.RWMutex"] ∧
+    skel_type_Stack = ["struct", "elements *list.List", "mutex sync.RWMutex", "elementAdded *sync.Cond", "elementRemoved *sync.Cond"] ∧
+    skel_type_StarvingMutex = ["struct", "readersActive int", "writerActive bool", "pendingWriters int", "mutex sync.Mutex", "readerCond sync.Cond", "writerCond sync.Cond"] ∧
+    skel_type_DAGMutex = ["struct", "consumerCounter *shrinkingmap.ShrinkingMap[T,int]", "mutexes *shrinkingmap.ShrinkingMap[T,*StarvingMutex]", "embedded sync.Mutex"] := by
+  decide
+
 /-! ## Non-vacuity -/
 
 /-- Well-bracketed scripts exist and exercise every method; recursion of read locks is allowed. -/
